@@ -318,6 +318,9 @@ def finish_with_refutation(prop, obs, select, seed, tier):
             if not searched:
                 searched = True
                 found = toyforms.search(prop, seed, 300 if tier == 'quick' else 3000) if prop in toyforms.CHECKS else None
+                if not found and prop in ('C03', 'C12'):
+                    # input-only forms with amounts of more than two decimals (declared rounding, fixed point)
+                    found = toyforms.mirror_search(prop)
                 if not found:
                     from .. import session
                     if prop in session.CHECKS:
@@ -333,6 +336,9 @@ def finish_with_refutation(prop, obs, select, seed, tier):
                 if found.get('kind') == 'session':
                     o.replay = {'reproduced': True, 'native_counterexample': found, 'note': 'scripted interactive session of the real habutax.solve(args) over toy forms (pyvc/session.py)'}
                     o.replay_spec = {'kind': 'session', 'prop': prop, 'scenario': {k: found[k] for k in ('program', 'requested', 'provided', 'answers', 'stop_at', 'stop_kind')}}
+                elif found.get('kind') == 'mirror':
+                    o.replay = {'reproduced': True, 'native_counterexample': found, 'note': 'three copies of a toy input-only form read by a summing form, run on the real Solver (toyforms.mirror_run)'}
+                    o.replay_spec = {'kind': 'mirror', 'prop': prop, 'scenario': found['scenario']}
                 else:
                     o.replay = {'reproduced': True, 'native_counterexample': found, 'note': 'toy form program run on the real Solver (concretisation search)'}
                     o.replay_spec = {'kind': 'toy', 'prop': prop, 'scenario': {k: found[k] for k in ('program', 'requested', 'provided', 'answers', 'refuse_after')}}
